@@ -324,7 +324,7 @@ def worker_result():
                 violations=[], inconclusive=[])
 
 
-ITEM_TIMEOUT = int(os.environ.get('VERIF_ITEM_TIMEOUT', '1500'))     # seconds of wall clock per work item
+ITEM_TIMEOUT = int(os.environ.get('VERIF_ITEM_TIMEOUT', '7200' if 'thorough' in sys.argv else '3000'))     # seconds of wall clock per work item (the heaviest thorough items need 10-15 min on an idle machine, several times that on a loaded one)
 
 
 class ItemTimeout(BaseException):
